@@ -822,9 +822,79 @@ brk("C12", "thermal eta kernel with the wrong sign of the reflected term", "L5",
     "                        * (((np.exp(-1j*tau * w) \\\n                             - np.exp(-(w / self.temperature - 1j*tau * w))) \\"))
 brk("C12", "T=0 eta kernel without the linear counter term", "L5", _sub(
     BC, "                    (np.exp(-1j * w * tau) - 1) + 1j * w * tau)", "                    (np.exp(-1j * w * tau) - 1))"))
+_OV_ETA = """                else:
+                    inte = self._spectral_density(w) / w ** 2 \\
+                        * (((np.exp(-1j*tau * w) \\
+                             + np.exp(-(w / self.temperature - 1j*tau * w))) \\
+                            - np.exp(- w / self.temperature) - 1) \\
+                           + 1j*tau * w)
+"""
+_OV_COR = """                else:
+                    inte = self._spectral_density(w) \\
+                        * (np.exp(-1j * tau * w)
+                           + np.exp(-(1 / self.temperature * w \\
+                                      - 1j * tau * w)))
+"""
 brk("C12", "overflow branch of eta divides by w instead of w**2", "L5", _sub(
-    BC, "                    inte = self._spectral_density(w) / w ** 2 \\\n                        * (np.exp(-1j * w * tau) - 1 + 1j * w * tau)",
-    "                    inte = self._spectral_density(w) / w \\\n                        * (np.exp(-1j * w * tau) - 1 + 1j * w * tau)"))
+    BC, _OV_ETA, _OV_ETA.replace("/ w ** 2", "/ w")))
+brk("C12", "eta kernel beyond the guard drops the reflected exponential (zero-temperature kernel)", "L8", _sub(
+    BC, _OV_ETA, """                else:
+                    inte = self._spectral_density(w) / w ** 2 \\
+                        * (np.exp(-1j * w * tau) - 1 + 1j * w * tau)
+"""))
+brk("C11", "eta kernel beyond the guard drops the reflected exponential (zero-temperature kernel)", "K8", _sub(
+    BC, _OV_ETA, """                else:
+                    inte = self._spectral_density(w) / w ** 2 \\
+                        * (np.exp(-1j * w * tau) - 1 + 1j * w * tau)
+"""))
+brk("C12", "correlation beyond the guard drops the reflected exponential", "L8", _sub(
+    BC, _OV_COR, """                else:
+                    inte = self._spectral_density(w) * np.exp(-1j * w * tau)
+"""))
+brk("C12", "eta kernel beyond the guard keeps the reflected term without its Boltzmann factor", "L8", _sub(
+    BC, _OV_ETA, _OV_ETA.replace("np.exp(-(w / self.temperature - 1j*tau * w))", "np.exp(1j*tau * w)")))
+ok("C12", "eta kernel beyond the guard identical to the guarded kernel", _sub(
+    BC, _OV_ETA, """                else:
+                    inte = self._spectral_density(w) / w ** 2 \\
+                        * (((np.exp(-1j*tau * w) \\
+                             + np.exp(-(w / self.temperature - 1j*tau * w))) \\
+                            - np.exp(- w / self.temperature) - 1) \\
+                        / (1 - np.exp(-w / self.temperature)) + 1j*tau * w)
+"""))
+ok("C11", "eta kernel beyond the guard identical to the guarded kernel", _sub(
+    BC, _OV_ETA, """                else:
+                    inte = self._spectral_density(w) / w ** 2 \\
+                        * (((np.exp(-1j*tau * w) \\
+                             + np.exp(-(w / self.temperature - 1j*tau * w))) \\
+                            - np.exp(- w / self.temperature) - 1) \\
+                        / (1 - np.exp(-w / self.temperature)) + 1j*tau * w)
+"""))
+_GUARD_RE = (r"(                if )np\.exp\(-w / self\.temperature\) > np\.finfo\(float\)\.eps(:\n)(.*?)"
+             r"(                else:\n)(.*?)(                return inte\n)")
+for _pid in ("C12", "C11"):
+    ok(_pid, "overflow guards written the other way round (approximate branch first)", _sub(
+        BC, _GUARD_RE, r"\1np.finfo(float).eps >= np.exp(-w / self.temperature)\2\5\4\3\6", count=2, regex=True))
+    brk(_pid, "both integrand builders use the approximate branch for every frequency of a 'cold' bath",
+        "L8" if _pid == "C12" else "K8", _multi(
+        _sub(BC, r"(            )(def integrand\(w\):\n                # this is to stop overflow\n)",
+             r"\1cold = np.exp(-self.cutoff / self.temperature) < np.finfo(float).eps\n\1\2", count=2, regex=True),
+        _sub(BC, "                if np.exp(-w / self.temperature) > np.finfo(float).eps:\n",
+             "                if not cold and np.exp(-w / self.temperature) > np.finfo(float).eps:\n", count=2)))
+ok("C12", "eta kernel beyond the guard as the numerator of the guarded kernel", _sub(
+    BC, _OV_ETA, """                else:
+                    boltzmann = np.exp(-w / self.temperature)
+                    inte = self._spectral_density(w) / w ** 2 \\
+                        * (np.exp(-1j * w * tau) + boltzmann * np.exp(1j * w * tau) \\
+                           - boltzmann - 1 + 1j * w * tau * (1 - boltzmann))
+"""))
+ok("C12", "correlation beyond the guard with the exponent written as a sum", _sub(
+    BC, _OV_COR, """                else:
+                    inte = self._spectral_density(w) \\
+                        * (np.exp(-1j * w * tau)
+                           + np.exp(1j * w * tau - w / self.temperature))
+"""))
+ok("C12", "eta kernel beyond the guard without the Boltzmann constant term", _sub(
+    BC, _OV_ETA, _OV_ETA.replace("                            - np.exp(- w / self.temperature) - 1) \\\n", "                            - 1) \\\n")))
 brk("C12", "thermal correlation integrand loses the reflected term", "L5", _sub(
     BC, "                        * (np.exp(-1j * tau * w)\n                           + np.exp(-(1 / self.temperature * w \\\n                                      - 1j * tau * w))) \\",
     "                        * (np.exp(-1j * tau * w)\n                           + np.exp(-(1 / self.temperature * w))) \\"))
@@ -1026,6 +1096,74 @@ def _shift_lines(scratch: str):
                 changed.append(os.path.relpath(full, scratch))
     return changed
 
+
+# ------------------------------------------------------------------ C13 G5 / G6, C15 U4
+DY = "oqupy/dynamics.py"
+_TB_STEP = '        next_step = self._step + 1\n        prop_1, prop_2 = self._propagators(self._step)\n        self._state = self.compute_system_step(next_step, prop_1, prop_2)\n        self._step = next_step\n'
+brk("C13", "TempoBackend.compute_step advances the counter before the propagators are computed", "G5", _sub(
+    TB, _TB_STEP,
+    '        self._step += 1\n        prop_1, prop_2 = self._propagators(self._step - 1)\n        self._state = self.compute_system_step(self._step, prop_1, prop_2)\n'))
+brk("C13", "MeanFieldTempoBackend.compute_step advances the counter before the field equation is called", "G5", _multi(
+    _sub(TB, '        current_step = self._step\n        next_step = current_step + 1\n        current_state_list = deepcopy(self._state_list)\n',
+         '        current_step = self._step\n        next_step = current_step + 1\n        self._step = next_step\n        current_state_list = deepcopy(self._state_list)\n'),
+    _sub(TB, '        self._field = next_field\n        self._step = next_step\n', '        self._field = next_field\n')))
+ok("C13", "TempoBackend.compute_step: counter written last through temporaries", _sub(
+    TB, _TB_STEP,
+    '        k = self._step\n        props = self._propagators(k)\n        new_state = self.compute_system_step(k + 1, props[0], props[1])\n        self._state = new_state\n        self._step = k + 1\n'))
+_DY_ADD = '        index = _find_list_index(self._times, tmp_time)\n        self._times.insert(index, tmp_time)\n        self._states.insert(index, tmp_state)\n'
+_TOL_DEDUPE = '        index = _find_list_index(self._times, tmp_time)\n        if index > 0 and np.isclose(self._times[index-1], tmp_time):\n            self._states[index-1] = tmp_state\n            return\n        self._times.insert(index, tmp_time)\n        self._states.insert(index, tmp_state)\n'
+_REL_DEDUPE = '        index = _find_list_index(self._times, tmp_time)\n        if index > 0 and abs(self._times[index-1] - tmp_time) <= 1e-9 * abs(tmp_time):\n            self._states[index-1] = tmp_state\n            return\n        self._times.insert(index, tmp_time)\n        self._states.insert(index, tmp_state)\n'
+_EXACT_DEDUPE = '        index = _find_list_index(self._times, tmp_time)\n        if index > 0 and self._times[index-1] == tmp_time:\n            self._states[index-1] = tmp_state\n            return\n        self._times.insert(index, tmp_time)\n        self._states.insert(index, tmp_state)\n'
+_ABS_DEDUPE = '        index = _find_list_index(self._times, tmp_time)\n        if index > 0 and np.isclose(self._times[index-1], tmp_time, rtol=0, atol=1e-13):\n            self._states[index-1] = tmp_state\n            return\n        self._times.insert(index, tmp_time)\n        self._states.insert(index, tmp_state)\n'
+for _pid, _rule in (("C13", "G6"), ("C15", "U4")):
+    brk(_pid, "Dynamics.add overwrites the entry whose time is numpy-close", _rule, _sub(DY, _DY_ADD, _TOL_DEDUPE))
+    ok(_pid, "Dynamics.add overwrites the entry with exactly the same time", _sub(DY, _DY_ADD, _EXACT_DEDUPE))
+    ok(_pid, "Dynamics.add overwrites the entry within an absolute tolerance", _sub(DY, _DY_ADD, _ABS_DEDUPE))
+    ok(_pid, "_parse_state checks hermiticity with a tolerance", _sub(
+        DY, '        tmp_state = np.array(state, dtype=NpDtype)\n',
+        '        tmp_state = np.array(state, dtype=NpDtype)\n        hermitian = np.allclose(tmp_state, tmp_state.conj().T)\n'))
+brk("C15", "Dynamics.add overwrites the entry within a hand-written relative tolerance", "U4", _sub(DY, _DY_ADD, _REL_DEDUPE))
+brk("C15", "Dynamics.__str__-style helper scales the recorded times", "U4", _sub(
+    DY, '        return np.array(self._times, dtype=NpDtypeReal)\n',
+    '        return np.array(self._times, dtype=NpDtypeReal) * (1 + 1e-12)\n'))
+ok("C15", "duration of the record as a magnitude", _sub(
+    DY, _DY_ADD, _DY_ADD + '        span = abs(self._times[-1] - self._times[0])\n'))
+brk("C13", "MeanFieldDynamics.add records the time but skips an empty field", "G6", _sub(
+    DY, '        self._fields.insert(index, tmp_field)\n',
+    '        if tmp_field is not None:\n            self._fields.insert(index, tmp_field)\n'))
+brk("C13", "Dynamics.add leaves early after recording the time when the state repeats", "G6", _sub(
+    DY, '        self._times.insert(index, tmp_time)\n        self._states.insert(index, tmp_state)\n',
+    '        self._times.insert(index, tmp_time)\n        if self._states and tmp_state is self._states[-1]:\n            return\n        self._states.insert(index, tmp_state)\n'))
+
+# ------------------------------------------------------------------ C20 A1: lru_cache over internally mutated state
+_LRU_IMPORT_CT = _sub(CT, 'from copy import deepcopy\n', 'from copy import deepcopy\nfrom functools import lru_cache\n')
+brk("C20", "lru_cache on ChainControl.get_single_site_controls (controls are added later)", "A1", _multi(
+    _LRU_IMPORT_CT,
+    _sub(CT, '    def get_single_site_controls(\n', '    @lru_cache(maxsize=None)\n    def get_single_site_controls(\n')))
+brk("C20", "lru_cache on Dynamics.expectations (states are added later)", "A1", _multi(
+    _sub(DY, 'from bisect import bisect\n', 'from bisect import bisect\nfrom functools import lru_cache\n'),
+    _sub(DY, '    def expectations(\n', '    @lru_cache(maxsize=16)\n    def expectations(\n')))
+ok("C20", "lru_cache on Control.get_controls, cleared by every method that adds controls", _multi(
+    _LRU_IMPORT_CT,
+    _sub(CT, '    def get_controls(\n', '    @lru_cache(maxsize=2 ** 10, typed=False)\n    def get_controls(\n'),
+    _sub(CT, '        control_operation = np.array(control_operation, dtype=NpDtype)\n\n        if isinstance(time, int):\n',
+         '        control_operation = np.array(control_operation, dtype=NpDtype)\n        self.get_controls.cache_clear()\n\n        if isinstance(time, int):\n')))
+
+# ------------------------------------------------------------------ C18 O2: fused controls
+_CD_CTRL = '            pre_measurement_control, post_measurement_control = controls(step)\n\n            if pre_measurement_control is not None:\n                current_node, current_edges = _apply_system_superoperator(\n                    current_node, current_edges, pre_measurement_control)\n\n            if step == num_steps:\n                break\n'
+def _fuse(cond, product):
+    return _sub(SD, _CD_CTRL, _CD_CTRL.replace(
+        'controls(step)\n\n', 'controls(step)\n\n            if ' + cond + ' \\\n                    and pre_measurement_control is not None \\\n                    and post_measurement_control is not None:\n                pre_measurement_control = \\\n                    ' + product + '\n                post_measurement_control = None\n\n'))
+brk("C18", "pre and post control fused when no state is recorded in between, also at the last step", "O2",
+    _fuse('not record_all', 'post_measurement_control @ pre_measurement_control'))
+brk("C18", "pre and post control fused for inner steps, factors in the wrong order", "O2",
+    _fuse('not record_all and step < num_steps', 'pre_measurement_control @ post_measurement_control'))
+brk("C18", "pre and post control fused for inner steps, also when every state is recorded", "O2",
+    _fuse('step < num_steps', 'np.dot(post_measurement_control, pre_measurement_control)'))
+ok("C18", "pre and post control fused for inner steps when no state is recorded in between",
+   _fuse('not record_all and step < num_steps', 'post_measurement_control @ pre_measurement_control'))
+ok("C18", "pre and post control fused (np.dot, != test) for inner steps when no state is recorded in between",
+   _fuse('(not record_all) and step != num_steps', 'np.dot(post_measurement_control, pre_measurement_control)'))
 
 for _pid in ["C01", "C02", "C03", "C04", "C05", "C06", "C07", "C08", "C09", "C10", "C11", "C12", "C13",
              "C14", "C15", "C16", "C17", "C18", "C19", "C20"]:
